@@ -88,14 +88,23 @@ def reference(lines):
 def run_one(ctx, rng, cands, d, status):
     lines = gen_stream(rng, cands)
     final_nl = rng.random() < 0.7
+    cr = rng.random() < 0.2
+    if cr:
+        # carriage returns: a progress line rewritten with CR, CRLF line ends, a CR inside program text.  How a CR splits
+        # lines is the text layer's business; whatever it is, it has to be the same in the three modes.
+        for _ in range(rng.randint(1, 5)):
+            i = rng.randrange(len(lines) + 1)
+            lines.insert(i, rng.choice(['progress 10%\rprogress 50%\rprogress 100%', 'text with\rcarriage return', 'crlf line\r', '\r',
+                                        'loading\r' + (lines[i - 1] if i else 'x')]))
     data = ('\n'.join(lines) + ('\n' if final_nl else '')).encode('utf-8')
     # the lines the byte stream really has (an empty last element is no line)
     lines = data.decode('utf-8').split('\n')
     if lines and lines[-1] == '':
         lines.pop()
     ref = []
-    for p in reference(lines):
-        ref += p.split('\n')
+    if not cr:
+        for p in reference(lines):
+            ref += p.split('\n')
     fn = os.path.join(d, 'stream.log')
     open(fn, 'wb').write(data)
     main = ['/venv/bin/python', os.path.join(env.REPO, 'main.py'), '-C']
@@ -119,6 +128,9 @@ def run_one(ctx, rng, cands, d, status):
         if r.returncode != 0:
             ctx.violation('file-mode-exit', 'exit %d: %s' % (r.returncode, r.stderr.decode('utf-8', 'replace')[-300:]), dict(case, mode='-l'))
             return
+        if cr:
+            ref[:] = normalise(r.stdout.decode('utf-8'))      # with CRs in the stream file mode is the reference for the other two
+            ctx.count('streams_with_carriage_returns')
         differs(normalise(r.stdout.decode('utf-8')), 'file mode', {'mode': '-l'})
         r = subprocess.run(main + ['-p'], input=data, stdout=subprocess.PIPE, stderr=subprocess.PIPE, timeout=300, env=e2)
         ctx.ev()
